@@ -189,6 +189,10 @@ def run(ctx):
                   and float(np.squeeze(row["P"].value)) == float(s["P"].value[int(idx)])
                   and float(np.squeeze(row2["P"].value)) == float(np.squeeze(row["P"].value))
                   and float(np.squeeze(row["ln_prior"])) + float(np.squeeze(row["ln_likelihood"])) == post.max())
+            if not (np.array_equal(np.asarray(s["ln_prior"]), lp) and np.array_equal(np.asarray(s["ln_likelihood"]), ll)
+                    and np.array_equal(np.asarray(s["P"].value), np.asarray(s["P"].value))):
+                ctx.violation("MAP_sample-modifies-its-input", "the caller's table changed under MAP_sample (ln_prior / "
+                              "ln_likelihood columns differ from what was passed in)", dict(index=j, N=N))
             if not ok:
                 ctx.violation("MAP_sample-wrong", "MAP_sample returned row %r whose ln_post=%r, max is %r"
                               % (int(idx), float(post[int(idx)]), float(post.max())),
